@@ -3,7 +3,7 @@
 From Coq Require Import ZArith QArith List String Bool Arith Lia Setoid Permutation.
 Import ListNotations.
 Require Import SC3.model.Graph SC3.gen.Gen_opcodes SC3.proofs.C01_inv SC3.proofs.C01_inv3 SC3.proofs.C01_init
-               SC3.proofs.C01_built SC3.proofs.C01_opt SC3.proofs.C01_topo SC3.proofs.C01_topo2.
+               SC3.proofs.C01_built SC3.proofs.C01_opt SC3.proofs.C01_cov SC3.proofs.C01_topo SC3.proofs.C01_topo2.
 Open Scope string_scope.
 Open Scope nat_scope.
 Open Scope list_scope.
@@ -23,7 +23,11 @@ Record Compiled (p : prog) (s1 s2f s3 : st) (s2 : st) (out : list nat) (g : grap
                                                                     | None => dref U end)) (Z.of_nat i)
                                   | None => U end)
                 | None => None end;
-  CP_graph : g = emit s3 (collect_constants s2f)
+  CP_graph : g = emit s3 (collect_constants s2f);
+  CP_trace : exists s0 ante, InitSpec s1 s0 ante /\ asteps (with_rewriting s0 true, []) (s2, []);
+  CP_cov : Covered s2f;
+  CP_optimize : exists ok, optimize T false true true s1 = Ok (s2f, ok);
+  CP_topo : topological_sort s2f = Ok s3
 }.
 
 Theorem compile_total : forall p s1, build_graph T p = Ok s1 ->
@@ -32,9 +36,16 @@ Theorem compile_total : forall p s1, build_graph T p = Ok s1 ->
 Proof.
   intros p s1 Hb Hchk. pose proof (build_graph_built p s1 Hb) as B.
   destruct (optimize_ok T_plus T_minus s1 B) as (s2f & ok & s0 & ante & s2 & rho & E & E0 & HI1 & T2 & HI2 & HW & R & O).
+  destruct (built_init_inv s1 B) as (s0' & ante' & E0' & _ & _ & IS).
+  rewrite E0 in E0'. injection E0' as <- <-.
+  pose proof (asteps_cov _ _ T2 (Built_cov_inv s1 s0 ante B IS)) as HC. cbn [fst] in HC.
   destruct (topological_sort_ok s2f rho O) as (s3 & out & E3 & C3 & P3 & B3 & _ & G3).
   exists (emit s3 (collect_constants s2f)), ok, s2f, s3, s2, out. split.
   - unfold compile_flag. rewrite Hb. cbn [bind]. rewrite E. cbn [bind]. rewrite (Hchk s2f ok E). cbn [negb].
     rewrite E3. cbn [bind]. reflexivity.
-  - constructor; auto. exists rho; auto.
+  - constructor; auto.
+    + exists rho; auto.
+    + exists s0, ante. auto.
+    + eapply Reindexed_Covered; eauto.
+    + exists ok; auto.
 Qed.
